@@ -22,6 +22,7 @@ import (
 	"runtime"
 	"sort"
 	"strings"
+	"time"
 
 	"golang.org/x/tools/go/packages"
 )
@@ -645,7 +646,21 @@ func main() {
 		Mode: packages.NeedName | packages.NeedFiles | packages.NeedSyntax | packages.NeedTypes | packages.NeedTypesInfo | packages.NeedImports | packages.NeedDeps,
 		Dir:  repo, Tests: false, Env: kept,
 	}
-	pkgs, err := packages.Load(cfg, "./x/...", "./app/...", "./eth/...")
+	// `go list` shares the build cache with concurrent builds (other checks trim / rewrite it): retry transient failures
+	var pkgs []*packages.Package
+	for attempt := 0; ; attempt++ {
+		pkgs, err = packages.Load(cfg, "./x/...", "./app/...", "./eth/...")
+		bad := err != nil
+		for _, p := range pkgs {
+			if len(p.Errors) > 0 {
+				bad = true
+			}
+		}
+		if !bad || attempt >= 3 {
+			break
+		}
+		time.Sleep(time.Duration(2+3*attempt) * time.Second)
+	}
 	if err != nil {
 		fatal("load:", err)
 	}
